@@ -107,9 +107,14 @@ def run(model: Model, rep: Report) -> None:
         groups = [unparse(c.comparators[0]) for c in bool_operands(cur.test, ast.Or) if isinstance(c, ast.Compare) and unparse(c.left) == fvar and isinstance(c.ops[0], ast.In)]
         # first assignment `data = <call>(...)` anywhere in the branch (Flate has it inside a try)
         callee = ("pass", [])
+        # a local bound to {k: resolve1(v) for (k, v) in params.items()} is the parameter dictionary (values resolved)
+        alias = {}
+        for st in cur.body:
+            if isinstance(st, ast.Assign) and len(st.targets) == 1 and isinstance(st.targets[0], ast.Name) and isinstance(st.value, ast.DictComp) and len(st.value.generators) == 1 and "".join(unparse(st.value.generators[0].iter).split()) == f"{pvar}.items()" and isinstance(st.value.value, ast.Call) and (dotted(st.value.value.func) or "") in ("resolve1", "resolve_all"):
+                alias[st.targets[0].id] = pvar
         for n in sorted([x for st in cur.body for x in [st] + list(walk_no_nested(st)) if isinstance(x, ast.Assign)], key=lambda x: (x.lineno, x.col_offset)):
             if isinstance(n, ast.Assign) and unparse(n.targets[0]) == "data" and isinstance(n.value, ast.Call):
-                callee = (dotted(n.value.func) or "?", [unparse(a) for a in n.value.args])
+                callee = (dotted(n.value.func) or "?", [alias.get(unparse(a), unparse(a)) for a in n.value.args])
                 break
         if any(isinstance(n, ast.Raise) for st in cur.body for n in [st] + list(walk_no_nested(st))) and callee[0] == "pass":
             callee = ("raise", [])
@@ -455,10 +460,18 @@ def _simple_decoders(model: Model, rep: Report) -> None:
 
 
 def _tiff_and_lzw_run(model: Model, rep: Report) -> None:
-    r10 = rep.rule("C03-R10", "NORMFORM", "TIFF predictor 2: each sample is the stored difference plus the sample one pixel to the left (mod 256), rows of columns * colors bytes; LZW: codes are read MSB first at the current width until the data ends", 3)
+    r10 = rep.rule("C03-R10", "NORMFORM", "TIFF predictor 2: each sample is the stored difference plus the sample one pixel to the left (mod 256), rows of columns * colors bytes; LZW: codes are read MSB first at the current width until the data ends", 4)
     tf = model.func(U + "apply_tiff_predictor")
     s1 = "".join(unparse(tf.node).split())
-    r10.check("bpp=colors*(bitspercomponent//8)" in s1 and "nbytes=columns*bpp" in s1 and "forscanline_iinrange(0,len(data),nbytes):" in s1 and "new_value=data[scanline_i+i]ifi>=bpp:new_value+=raw[i-bpp]new_value%=256raw.append(new_value)" in s1 and "buf.extend(raw)" in s1, site(tf), tf.qualname, "row = columns * colors bytes; sample i (i >= bytes per pixel) += sample i - bytes per pixel of the same row, mod 256", why="TIFF predictor arithmetic changed")
+    r10.check("bpp=colors*(bitspercomponent//8)" in s1 and "nbytes=columns*bpp" in s1 and "forscanline_iinrange(0,len(data),nbytes):" in s1 and "ifi>=bpp:new_value+=raw[i-bpp]new_value%=256raw.append(new_value)" in s1 and ("new_value=data[scanline_i+i]" in s1 or "fori,new_valueinenumerate(data[scanline_i:scanline_i+nbytes]):" in s1.replace("for(i,new_value)in", "fori,new_valuein")) and "buf.extend(raw)" in s1, site(tf), tf.qualname, "row = columns * colors bytes; sample i (i >= bytes per pixel) += sample i - bytes per pixel of the same row, mod 256", why="TIFF predictor arithmetic changed")
+    # the payload need not be a whole number of rows: a row is taken with a slice (which cannot overrun), never with an index
+    # computed from the row start and the row size
+    dparam = tf.params[-1]
+    idx = [n for n in walk_no_nested(tf.node) if isinstance(n, ast.Subscript) and isinstance(n.value, ast.Name) and n.value.id == dparam]
+    if not idx:
+        raise AnchorMissing("apply_tiff_predictor: no access to the payload found")
+    for n in idx:
+        r10.check(isinstance(n.slice, ast.Slice), site(tf, n), tf.qualname, f"`{unparse(n)}` : the payload is read by slice", why=f"`{unparse(n)}` indexes the payload at row start + offset for a full row: when the payload is not a whole number of rows the last row is short and the index runs past the end (IndexError instead of the decoded bytes)")
     r10.check("ifbitspercomponent!=8:" in s1 and "raisePDFValueError(error_msg)" in s1, site(tf), tf.qualname, "only 8 bits per component are un-predicted; other depths are rejected, not mis-decoded", why="guard changed")
     rb = model.func("pdfminer.lzw.LZWDecoder.readbits")
     s2 = "".join(unparse(rb.node).split())
